@@ -399,6 +399,19 @@ def create_for_folder_subcommand(
         raise errors.NoMHLHistoryException(", ".join(missing_asc_mhl_folder))
 
 
+def _path_below_root(path, root_path):
+    """A path that lies in the root folder but reaches it through another spelling than root_path (a symbolic link in
+    one of the two, the physical working directory for a relative path) is re-expressed below root_path, so that
+    the path recorded relative to the root does not start with '..'"""
+    relative_path = os.path.relpath(path, root_path)
+    if relative_path == os.pardir or relative_path.startswith(os.pardir + os.sep):
+        real_path = os.path.join(os.path.realpath(os.path.dirname(path)), os.path.basename(path))
+        real_relative_path = os.path.relpath(real_path, os.path.realpath(root_path))
+        if real_relative_path != os.pardir and not real_relative_path.startswith(os.pardir + os.sep):
+            return os.path.normpath(os.path.join(root_path, real_relative_path))
+    return path
+
+
 def create_for_single_files_subcommand(
     root_path,
     verbose,
@@ -456,7 +469,7 @@ def create_for_single_files_subcommand(
     for path in single_file:
         if not os.path.isabs(path):
             path = os.path.join(os.getcwd(), path)
-        path = os.path.normpath(path)
+        path = _path_below_root(os.path.normpath(path), root_path)
         if os.path.isdir(path):
             # patterns are relative to the root folder of the history, not to the folder given with -sf
             for folder_path, children in post_order_lexicographic(
